@@ -232,9 +232,21 @@ func (b *Builder) epsilonClosureOnePass(root nfa.StateID) ([]closureEntry, bool,
 		case nfa.StateLook:
 			// Handle anchors (^, $, \A, \z) as epsilon transitions.
 			// For onepass DFA (which is always anchored at start):
-			// - Start anchors (^, \A): Always satisfied - follow epsilon
+			// - Start anchors (^, \A): satisfied at position 0 only, i.e. in the
+			//   closure of the start state - follow epsilon there
 			// - End anchors ($, \z): Follow epsilon; match checked at input end
-			_, next := state.Look()
+			// Assertions that depend on the neighbouring bytes (\b, \B, (?m)$) or
+			// a start anchor after input was consumed cannot be decided when the
+			// automaton is built: such patterns are not one-pass for this builder.
+			look, next := state.Look()
+			switch look {
+			case nfa.LookWordBoundary, nfa.LookNoWordBoundary, nfa.LookEndLine:
+				return nil, false, ErrNotOnePass
+			case nfa.LookStartText, nfa.LookStartLine:
+				if root != b.nfa.StartAnchored() {
+					return nil, false, ErrNotOnePass
+				}
+			}
 			if next != nfa.InvalidState {
 				if err := b.stackPush(next, slots); err != nil {
 					return nil, false, err
